@@ -150,11 +150,18 @@ class ConcJob:
 
 
 def run(ctx):
-    conc = ConcJob(ctx)
+    # development aid (mutation runs, timing): C14_PARTS=seq or C14_PARTS=conc restricts the check to the named part
+    parts = set(os.environ.get("C14_PARTS", "seq,conc").split(","))
+    if parts != {"seq", "conc"}:
+        ctx.exhaustive = False
+        ctx.assume("partial run: C14_PARTS=" + ",".join(sorted(parts)))
+    conc = ConcJob(ctx) if "conc" in parts else None
     try:
-        run_sequential(ctx)
+        if "seq" in parts:
+            run_sequential(ctx)
     finally:
-        conc.merge(ctx)
+        if conc:
+            conc.merge(ctx)
 
 
 def run_sequential(ctx):
